@@ -86,4 +86,9 @@ def entropyFromIdx (ck : Bytes → Nat) (idx : List (Option Nat)) : Except Err B
       let entropyChecksum := if n ≠ 24 then ck entropy / checksumShift n else ck entropy
       if checksum ≠ entropyChecksum then .error .checksum else .ok entropy
 
+/-- `IsMnemonicValid(mnemonic, language)` after `strings.Fields` and the word lookup -/
+def isMnemonicValidIdx (idx : List (Option Nat)) : Bool :=
+  let n := idx.length
+  if n % 3 ≠ 0 ∨ n < 12 ∨ n > 24 then false else idx.all Option.isSome
+
 end BytomModel.Mnemonic
